@@ -234,6 +234,13 @@ HOp make_followup(RunCtx& ctx, Rng& rng, int session)
     return op;
 }
 
+/** which injected faults fired in the call: '-' none, 'A' allocation failure only, 'I' I/O or sink fault only, 'B' both */
+char fault_code(const CallResult& r)
+{
+    const bool a = r.ctx.fail_fired, i = r.ctx.io_fault_fired != IO_NONE || r.sink_fault_fired;
+    return a ? (i ? 'B' : 'A') : (i ? 'I' : '-');
+}
+
 void write_blob(int fd, const std::string& s)
 {
     uint32_t n = (uint32_t)s.size();
@@ -271,7 +278,7 @@ std::vector<std::string> reference_session(const std::vector<const HOp*>& ops, i
             alarm((unsigned)watchdog_s);
             CallResult r = run_call(s, c, 0);
             alarm(0);
-            write_blob(p[1], std::string{r.env_faulted() ? "F" : "-"} + record_of(s, c, r));
+            write_blob(p[1], std::string(1, fault_code(r)) + record_of(s, c, r));
         }
         _exit(0);
     }
@@ -518,7 +525,7 @@ static void profile_history_sweep(RunCtx& ctx)
             CallResult r = ctx.call(ps, op.call, st);
             if (ctx.violations)
                 return;
-            if (k >= refs[pi].size() || refs[pi][k][0] == 'F' || r.env_faulted())
+            if (k >= refs[pi].size() || refs[pi][k][0] != '-' || r.env_faulted())
                 continue;
             std::string rec = record_of(ps, op.call, r);
             ctx.count("calls-compared");
@@ -892,10 +899,11 @@ void profile_history(RunCtx& ctx)
             ctx.count("calls-without-reference");
             continue;
         }
-        const bool ref_faulted = refs[op.session][k][0] == 'F';
+        const bool ref_faulted = refs[op.session][k][0] != '-';
         if (load)
             fault_diverged[op.session] = false;
-        if (ref_faulted != faulted) {
+        // (compared per kind: a call may carry an I/O fault *and* an allocation failure, and the latter may fire on one side only)
+        if (refs[op.session][k][0] != fault_code(r)) {
             // the k-th allocation of a call is not the same allocation in every history (lazily initialised
             // statics allocate on first use only), so an injected failure may fire on one side only; from here
             // on the two sides hold different documents until the session loads a new one
